@@ -381,6 +381,7 @@ def canaries():
 
 
 def parts(tier):
+    tree()      # built once in the parent: the forked workers share it, and only the parent removes it at exit
     xh = Part('get-ranges-symbolic', kind='crosshair', conditions=XH_CONDITIONS,
               bounds={'header': "'bytes=' + s, len(s) <= 3 (symbolic str)", 'content_length': '0..12 (symbolic int)', 'suffix': 'k in 0..12, n in 0..10'})
     xh.xh_preamble = XH_PREAMBLE
